@@ -6,9 +6,11 @@
   admissible parameters (Rosin-Rammler: k < 0, α > 0; log-normal: σ > 0; median d50 > 0).
 
   False for the code as written (negation proved here, reproduced on the real code by harness/c16.py):
-    * psf.li_etal divides 0 by 0 when the requested phase has zero flow   (liEtal_zero_flow_divides_by_zero);
-    * psf.li_etal never applies the d95 rule: d95 > maximum stable size     (liEtal_d95_cap_false);
-    * ModelBase with model_gas='wang_etal', pdf_gas='rosin-rammler' produces no distribution (wang_rosin_rammler_raises).
+    * psf.li_etal never applies the d95 rule: d95 > maximum stable size     (liEtal_d95_cap_false; known finding).
+  Found by this check and since repaired in /repo (the theorems are now the positive statements):
+    * psf.li_etal divided 0 by 0 when the requested phase had zero flow (9f1b754) → liEtal_no_division_by_zero;
+    * ModelBase with model_gas='wang_etal', pdf_gas='rosin-rammler' produced no distribution (99832ec)
+      → wang_rosin_rammler_yields_distribution.
 -/
 import TamocV.Real
 import TamocV.Lemmas.Basic
@@ -331,39 +333,39 @@ theorem sintef_zero_oil_no_division_by_zero (d0 qGas rhoGas rhoOil rho : ℝ) (h
   · exact hroot.ne'
   · exact (div_pos hUn hroot).ne'
 
-/-- li_etal DOES divide by zero when the requested phase has zero flow: the void fraction `n` (gas) resp. `1 − n`
-    (liquid) by which `Uc` is divided is 0 — and the numerator `4·q/(π d0²)` is 0 as well (0/0).
-    This is the negation of the "never a division by zero" clause for psf.li_etal. -/
-theorem liEtal_zero_flow_divides_by_zero (d0 q : ℝ) (hq : 0 < q) :
-    (0 : ℝ) ∈ liEtalDenoms d0 0 q 0 ∧ (0 : ℝ) ∈ liEtalDenoms d0 q 0 1 := by
-  constructor
-  · simp [liEtalDenoms, voidFraction]
-  · have : q / q = 1 := div_self hq.ne'
-    simp [liEtalDenoms, voidFraction, this]
-
-/-- … while with both phases flowing it does not -/
-theorem liEtal_two_phase_no_division_by_zero (d0 qGas qOil : ℝ) (fp : ℕ) (hd : 0 < d0) (hg : 0 < qGas) (ho : 0 < qOil) :
+/-- li_etal evaluates no zero denominator before it looks at the flow of the requested phase — for zero flow of
+    either phase or of both (the exit velocity is `4 (q_gas + q_oil) / (π d0²)`; the divisions of `li_etal_d50` are
+    only reached when the requested phase flows) -/
+theorem liEtal_no_division_by_zero (d0 qGas qOil : ℝ) (fp : ℕ) (hd : 0 < d0) :
     ∀ x ∈ liEtalDenoms d0 qGas qOil fp, x ≠ 0 := by
   have hpi := pi_pos
-  have hs : 0 < qGas + qOil := by linarith
   intro x hx
-  simp only [liEtalDenoms, voidFraction, Num.real_npow, Num.real_ofNat, Num.real_one, List.mem_cons, List.mem_nil_iff,
-    or_false] at hx
-  rcases hx with rfl | rfl | rfl
-  · exact hs.ne'
-  · positivity
-  · split
-    · exact (div_pos hg hs).ne'
-    · have : qGas / (qGas + qOil) < 1 := (div_lt_one hs).mpr (by linarith)
-      linarith
+  simp only [liEtalDenoms, Num.real_npow, List.mem_cons, List.mem_nil_iff, or_false] at hx
+  subst hx
+  positivity
 
-/-! ## ModelBase: model_gas = 'wang_etal' with pdf_gas = 'rosin-rammler' never produces a distribution -/
+/-- with neither phase flowing li_etal returns the empty parameters (median 0, no maximum stable size) -/
+theorem liEtal_no_flow (dmaxGas d0 rhoGas rhoOil mu_p sigma rho mu : ℝ) (fp : ℕ) :
+    (liEtal dmaxGas d0 [0] rhoGas [0] rhoOil mu_p sigma rho mu fp).1 = 0 ∧
+    (liEtal dmaxGas d0 [0] rhoGas [0] rhoOil mu_p sigma rho mu fp).2.1 = none := by
+  by_cases h : fp = 0 <;> simp [liEtal, liEtalModel, mass2vol, rrFit, Num.real_sum, h]
 
-/-- `simulate` stores the Rosin-Rammler shape in `sigma_gas`; `alpha_gas` is never set, so for a flowing gas phase
-    `get_distributions` raises (`none`) -/
-theorem wang_rosin_rammler_raises (dmaxGas rhoA rhoB : ℝ) (nbins : ℕ) (d0 mGas mOil rhoGas muGas sigmaGas rhoOil rho mu P : ℝ)
+/-! ## ModelBase: model_gas = 'wang_etal' with pdf_gas = 'rosin-rammler' -/
+
+/-- for a flowing gas phase `get_distributions` returns the Rosin-Rammler distribution with the parameters `ln2rr`
+    computed from the wang_etal median and spread (before fix 99832ec the shape was stored in `sigma_gas` and
+    `get_distributions` raised) -/
+theorem wang_rosin_rammler_yields_distribution (dmaxGas rhoA rhoB : ℝ) (nbins : ℕ)
+    (d0 mGas mOil rhoGas muGas sigmaGas rhoOil rho mu P : ℝ)
     (h : (wang dmaxGas rhoA rhoB d0 [mGas] rhoGas muGas sigmaGas rho mu [mOil] rhoOil P).1 ≠ 0) :
-    mbGas dmaxGas rhoA rhoB 0 0 nbins d0 mGas mOil rhoGas muGas sigmaGas rhoOil rho mu P = none := by
+    mbGas dmaxGas rhoA rhoB 0 0 nbins d0 mGas mOil rhoGas muGas sigmaGas rhoOil rho mu P =
+      some (rosinRammler nbins
+        (ln2rr (wang dmaxGas rhoA rhoB d0 [mGas] rhoGas muGas sigmaGas rho mu [mOil] rhoOil P).1
+               (wang dmaxGas rhoA rhoB d0 [mGas] rhoGas muGas sigmaGas rho mu [mOil] rhoOil P).2.2.2.2).1
+        (ln2rr (wang dmaxGas rhoA rhoB d0 [mGas] rhoGas muGas sigmaGas rho mu [mOil] rhoOil P).1
+               (wang dmaxGas rhoA rhoB d0 [mGas] rhoGas muGas sigmaGas rho mu [mOil] rhoOil P).2.2.2.2).2.1
+        (ln2rr (wang dmaxGas rhoA rhoB d0 [mGas] rhoGas muGas sigmaGas rho mu [mOil] rhoOil P).1
+               (wang dmaxGas rhoA rhoB d0 [mGas] rhoGas muGas sigmaGas rho mu [mOil] rhoOil P).2.2.2.2).2.2) := by
   simp only [mbGas, if_true, ln2rr, getDist, isZero_false_of_ne h]
   simp
 
@@ -451,7 +453,7 @@ theorem liEtal_d95_cap_false :
   -- exit velocity
   set Uc : ℝ := liEtalUc 0.01 0 (0.0009 / 900) 1 with hUc
   have hUcv : Uc = 4 * (0.0009 / 900) / (Model.Psf.pi * 0.01 ^ 2) := by
-    simp only [hUc, liEtalUc, voidFraction, Num.real_npow, Num.real_ofNat, Num.real_one, Num.real_ofSci]
+    simp only [hUc, liEtalUc, Num.real_npow, Num.real_ofNat, Num.real_one, Num.real_zero, Num.real_ofSci]
     norm_num
   have hUcpos : 0 < Uc := by rw [hUcv]; positivity
   have hr : liEtal (0 : ℝ) 0.01 [0] 100 [0.0009] 900 0.001 0.015696 1000 0.001 1 =
